@@ -192,9 +192,11 @@ def _judge(ctx: Ctx, items):
 def self_test(ctx: Ctx):
     """Binding demonstration: a good trace is accepted; corrupting one recorded field, or dropping one recorded
     step's state change, makes GridTrace reject it."""
-    h = [{"e": 4.0, "g": None, "s": 0.5, "endp": False, "lockE": False, "lockG": True, "lockS": False},
-         {"a": "SetExtent", "arg": 5.0}, {"a": "SetSampling", "arg": 0.25}]
-    t, _ = run_history(h, 1)
+    # synthetic trace (independent of the real code): Grid(extent=4, sampling=1/2, lock_gpts) ; extent=5 ; sampling=1/4
+    fl = {"lockE": False, "lockG": True, "lockS": False, "endp": [False]}
+    t = [dict({"a": "Init", "raised": False, "e": [[4, 1]], "g": [8], "s": [[1, 2]], "r": [[1, 4]]}, **fl),
+         {"a": "SetExtent", "raised": False, "e": [[5, 1]], "g": [8], "s": [[5, 8]], "r": [[1, 5]]},
+         {"a": "SetSampling", "raised": False, "e": [[2, 1]], "g": [8], "s": [[1, 4]], "r": [[1, 2]]}]
     good = json.loads(json.dumps(t))
     c1 = json.loads(json.dumps(t))
     c1[1]["s"] = [[1, 3]]                      # corrupted field: sampling no longer extent/gpts
